@@ -322,3 +322,270 @@ Proof.
   rewrite ev_cat, (ev_exact _ _ one_D). destruct (take_p isd 2 s10) as [s11|]; [|reflexivity].
   rewrite frac_zone_is. destruct (frac_zone_len s11) as [z|]; reflexivity.
 Qed.
+
+(* ================================================================== 3.  _R_DATETIME_ZULU.sub('+00:00', text) *)
+(* the direct function: a Z that ends the text (or stands before one final newline) becomes +00:00 *)
+Fixpoint zulu (s : str) : str :=
+  match s with
+  | [] => []
+  | y :: t => if (y =? C_Z)%N && eol_ok t then U "+00:00" ++ t else y :: zulu t
+  end.
+
+Lemma ev_zulu pos rest :
+  ev UC R_DATETIME_ZULU pos rest [] kfin =
+  match rest with y :: t => if (y =? C_Z)%N && eol_ok t then MYes (S pos) [] else MNo | [] => MNo end.
+Proof.
+  unfold R_DATETIME_ZULU. rewrite ev_cat, (ev_one UC _ _ (one_lit UC 90)). destruct rest as [|y t]; [reflexivity|].
+  change C_Z with 90%N. destruct (y =? 90)%N; [|reflexivity]. rewrite ev_eol_fin. reflexivity.
+Qed.
+
+Lemma zulu_eol t : eol_ok t = true -> zulu t = t.
+Proof.
+  destruct t as [|c [|z t]]; [reflexivity | | discriminate]. cbn [eol_ok]. intros H. apply N.eqb_eq in H. subst c. reflexivity.
+Qed.
+
+Lemma sub_zulu (P : str) whole : forall f rest pos, length rest < f -> length rest <= length whole ->
+  re_sub_from UC R_DATETIME_ZULU (fun _ => P) whole f pos rest =
+  Some ((fix z (s : str) : str := match s with [] => [] | y :: t => if (y =? C_Z)%N && eol_ok t then P ++ t else y :: z t end) rest).
+Proof.
+  induction f as [|f IH]; intros rest pos Lf Lw; [lia|].
+  cbn [re_sub_from]. rewrite m_at_ev by exact Lw. rewrite ev_zulu.
+  destruct rest as [|y t]; [reflexivity|]. cbn [length] in Lf, Lw.
+  destruct ((y =? C_Z)%N && eol_ok t) eqn:E.
+  - assert (Hlt : Nat.ltb pos (S pos) = true) by (apply Nat.ltb_lt; lia). rewrite Hlt.
+    replace (S pos - pos) with 1 by lia. cbn [skipn]. rewrite IH by lia. cbn [option_map]. f_equal. f_equal.
+    apply andb_true_iff in E. destruct E as [_ E].
+    destruct t as [|c [|z t]]; [reflexivity | | discriminate]. cbn [eol_ok] in E. apply N.eqb_eq in E. subst c. reflexivity.
+  - rewrite IH by lia. reflexivity.
+Qed.
+
+Theorem zulu_sub_answer s : re_sub UC R_DATETIME_ZULU (fun _ _ => U "+00:00") s = Some (zulu s).
+Proof. unfold re_sub. rewrite sub_zulu by lia. reflexivity. Qed.
+
+(* ================================================================== 4.  iso_parse_rx = iso_parse, for every string *)
+(* ---- parse_datetime_form cut into its head (19 characters), the fraction and the zone *)
+Definition pdf_frac (s : str) : option (Z * str) :=
+  match s with
+  | c :: t =>
+    if (c =? C_DOT)%N then
+      let '(v, cnt, r) := frac_digits 6 t 0 0 in
+      if (cnt =? 0)%Z then None else Some ((v * 10 ^ (6 - cnt))%Z, r)
+    else Some (0%Z, s)
+  | [] => None
+  end.
+
+Definition pdf_zone (f : dtf) (s : str) : option (dtf * Z) :=
+  match s with
+  | [c] => if (c =? C_Z)%N then Some (f, 0%Z) else None
+  | c :: t =>
+    if (c =? C_PLUS)%N || (c =? C_DASH)%N then
+      do (oh, t) <- take_digits adigit 2 t 0;
+      do t <- expect C_COLON t;
+      do (om, t) <- take_digits adigit 2 t 0;
+      match t with
+      | [] => let o := (oh * 3600 + om * 60)%Z in Some (f, if (c =? C_DASH)%N then (- o)%Z else o)
+      | _ => None
+      end
+    else None
+  | [] => None
+  end.
+
+Definition pdf_tail (y mo d h mi sec : Z) (s : str) : option (dtf * Z) :=
+  do (us, s) <- pdf_frac s; pdf_zone (mkf y mo d h mi sec us) s.
+
+Lemma pdf_split s : parse_datetime_form s =
+  (do (y, s) <- take_digits adigit 4 s 0;
+   do s <- expect C_DASH s;
+   do (mo, s) <- take_digits adigit 2 s 0;
+   do s <- expect C_DASH s;
+   do (d, s) <- take_digits adigit 2 s 0;
+   do s <- expect C_T s;
+   do (h, s) <- take_digits adigit 2 s 0;
+   do s <- expect C_COLON s;
+   do (mi, s) <- take_digits adigit 2 s 0;
+   do s <- expect C_COLON s;
+   do (sec, s) <- take_digits adigit 2 s 0;
+   pdf_tail y mo d h mi sec s).
+Proof. reflexivity. Qed.
+
+(* ---- A.  the substitution does not change what parse_datetime_form reads *)
+Lemma zulu_cons y t : ((y =? C_Z)%N && eol_ok t) = false -> zulu (y :: t) = y :: zulu t.
+Proof. intros E. cbn [zulu]. rewrite E. reflexivity. Qed.
+
+Lemma zulu_z t : eol_ok t = true -> zulu (C_Z :: t) = U "+00:00" ++ t.
+Proof. intros E. cbn [zulu]. rewrite E. reflexivity. Qed.
+
+Lemma zt_inv y t : ((y =? C_Z)%N && eol_ok t) = true -> y = C_Z /\ eol_ok t = true.
+Proof. intros E. apply andb_true_iff in E. destruct E as [E1 E2]. apply N.eqb_eq in E1. auto. Qed.
+
+Lemma zulu_nil s : zulu s = [] -> s = [].
+Proof.
+  destruct s as [|y t]; [reflexivity|]. cbn [zulu]. destruct ((y =? C_Z)%N && eol_ok t); discriminate.
+Qed.
+
+Definition zmap {A} (vr : A * str) : A * str := (fst vr, zulu (snd vr)).
+
+Lemma zulu_take_digits : forall n s acc,
+  take_digits adigit n (zulu s) acc = option_map zmap (take_digits adigit n s acc).
+Proof.
+  induction n as [|n IH]; intros s acc; [reflexivity|].
+  destruct s as [|y t]; [reflexivity|].
+  destruct ((y =? C_Z)%N && eol_ok t) eqn:E.
+  - destruct (zt_inv y t E) as [-> Et]. rewrite zulu_z by exact Et. reflexivity.
+  - rewrite zulu_cons by exact E. cbn [take_digits]. destruct (adigit y); [apply IH | reflexivity].
+Qed.
+
+Lemma zulu_expect c s : (C_Z =? c)%N = false -> (C_PLUS =? c)%N = false ->
+  expect c (zulu s) = option_map zulu (expect c s).
+Proof.
+  intros NZ NP. destruct s as [|y t]; [reflexivity|].
+  destruct ((y =? C_Z)%N && eol_ok t) eqn:E.
+  - destruct (zt_inv y t E) as [-> Et]. rewrite zulu_z by exact Et. cbn [expect U app]. 
+    change (U "+00:00" ++ t) with (C_PLUS :: U "00:00" ++ t). cbn [expect]. rewrite NZ, NP. reflexivity.
+  - rewrite zulu_cons by exact E. cbn [expect]. destruct (y =? c)%N; reflexivity.
+Qed.
+
+Lemma zulu_frac_digits : forall n s acc cnt,
+  frac_digits n (zulu s) acc cnt = let '(v, k, r) := frac_digits n s acc cnt in (v, k, zulu r).
+Proof.
+  induction n as [|n IH]; intros s acc cnt; [reflexivity|].
+  destruct s as [|y t]; [reflexivity|].
+  destruct ((y =? C_Z)%N && eol_ok t) eqn:E.
+  - destruct (zt_inv y t E) as [-> Et]. rewrite zulu_z by exact Et. cbn [frac_digits]. 
+    change (adigit C_Z) with (@None Z). cbv iota. rewrite zulu_z by exact Et. reflexivity.
+  - rewrite zulu_cons by exact E. cbn [frac_digits]. destruct (adigit y); [apply IH |]. rewrite zulu_cons by exact E. reflexivity.
+Qed.
+
+Lemma zulu_pdf_frac s : pdf_frac (zulu s) = option_map zmap (pdf_frac s).
+Proof.
+  destruct s as [|y t]; [reflexivity|].
+  destruct ((y =? C_Z)%N && eol_ok t) eqn:E.
+  - destruct (zt_inv y t E) as [-> Et]. rewrite zulu_z by exact Et. unfold pdf_frac at 2. change (C_Z =? C_DOT)%N with false. cbv iota.
+    unfold zmap. cbn [option_map fst snd]. rewrite zulu_z by exact Et. reflexivity.
+  - rewrite zulu_cons by exact E. unfold pdf_frac. destruct (y =? C_DOT)%N.
+    + rewrite zulu_frac_digits. destruct (frac_digits 6 t 0 0) as [[v k] r]. destruct (k =? 0)%Z; reflexivity.
+    + unfold zmap. cbn [option_map fst snd]. rewrite zulu_cons by exact E. reflexivity.
+Qed.
+
+Lemma zulu_pdf_zone f s : pdf_zone f (zulu s) = pdf_zone f s.
+Proof.
+  destruct s as [|y t]; [reflexivity|].
+  destruct ((y =? C_Z)%N && eol_ok t) eqn:E.
+  - destruct (zt_inv y t E) as [-> Et]. rewrite zulu_z by exact Et.
+    destruct t as [|c [|z t]]; [reflexivity | | discriminate]. cbn [eol_ok] in Et. apply N.eqb_eq in Et. subst c. reflexivity.
+  - rewrite zulu_cons by exact E. destruct t as [|c2 t2]; [reflexivity|].
+    destruct (zulu (c2 :: t2)) as [|a b] eqn:Zn; [apply zulu_nil in Zn; discriminate|].
+    unfold pdf_zone. cbv iota beta. rewrite <- Zn. clear a b Zn. destruct ((y =? C_PLUS)%N || (y =? C_DASH)%N); [|reflexivity].
+    rewrite zulu_take_digits. destruct (take_digits adigit 2 (c2 :: t2) 0) as [[oh t3]|]; cbn [option_map obind zmap fst snd]; [|reflexivity].
+    rewrite zulu_expect by reflexivity. destruct (expect C_COLON t3) as [t4|]; cbn [option_map obind]; [|reflexivity].
+    rewrite zulu_take_digits. destruct (take_digits adigit 2 t4 0) as [[om t5]|]; cbn [option_map obind zmap fst snd]; [|reflexivity].
+    destruct t5 as [|a b]; [reflexivity|]. destruct (zulu (a :: b)) eqn:Zn; [apply zulu_nil in Zn; discriminate | reflexivity].
+Qed.
+
+Theorem zulu_parse_datetime_form s : parse_datetime_form (zulu s) = parse_datetime_form s.
+Proof.
+  rewrite !pdf_split.
+  rewrite zulu_take_digits. destruct (take_digits adigit 4 s 0) as [[y s1]|]; cbn [option_map obind zmap fst snd]; [|reflexivity].
+  rewrite zulu_expect by reflexivity. destruct (expect C_DASH s1) as [s2|]; cbn [option_map obind]; [|reflexivity].
+  rewrite zulu_take_digits. destruct (take_digits adigit 2 s2 0) as [[mo s3]|]; cbn [option_map obind zmap fst snd]; [|reflexivity].
+  rewrite zulu_expect by reflexivity. destruct (expect C_DASH s3) as [s4|]; cbn [option_map obind]; [|reflexivity].
+  rewrite zulu_take_digits. destruct (take_digits adigit 2 s4 0) as [[d s5]|]; cbn [option_map obind zmap fst snd]; [|reflexivity].
+  rewrite zulu_expect by reflexivity. destruct (expect C_T s5) as [s6|]; cbn [option_map obind]; [|reflexivity].
+  rewrite zulu_take_digits. destruct (take_digits adigit 2 s6 0) as [[h s7]|]; cbn [option_map obind zmap fst snd]; [|reflexivity].
+  rewrite zulu_expect by reflexivity. destruct (expect C_COLON s7) as [s8|]; cbn [option_map obind]; [|reflexivity].
+  rewrite zulu_take_digits. destruct (take_digits adigit 2 s8 0) as [[mi s9]|]; cbn [option_map obind zmap fst snd]; [|reflexivity].
+  rewrite zulu_expect by reflexivity. destruct (expect C_COLON s9) as [s10|]; cbn [option_map obind]; [|reflexivity].
+  rewrite zulu_take_digits. destruct (take_digits adigit 2 s10 0) as [[sec s11]|]; cbn [option_map obind zmap fst snd]; [|reflexivity].
+  unfold pdf_tail. rewrite zulu_pdf_frac. destruct (pdf_frac s11) as [[us s12]|]; cbn [option_map obind zmap fst snd]; [|reflexivity].
+  apply zulu_pdf_zone.
+Qed.
+
+(* ---- B.  whatever parse_datetime_form reads is matched by _R_DATETIME *)
+Lemma adigit_isd c d : adigit c = Some d -> isd c = true.
+Proof.
+  unfold adigit, isd, is_digit. destruct ((48 <=? c)%N && (c <=? 57)%N) eqn:E; [|discriminate]. intros _.
+  apply andb_true_iff in E. destruct E as [E1 E2].
+  assert (L : (c < 128)%N) by (apply N.leb_le in E2; lia).
+  replace (c <? 128)%N with true by (symmetry; apply N.ltb_lt; exact L). reflexivity.
+Qed.
+
+Lemma take_digits_a : forall n s acc v r, take_digits adigit n s acc = Some (v, r) -> take_p isd n s = Some r.
+Proof.
+  induction n as [|n IH]; intros s acc v r H.
+  - cbn in H. inversion H. reflexivity.
+  - destruct s as [|c t]; [discriminate|]. cbn [take_digits] in H. cbn [take_p].
+    destruct (adigit c) as [d|] eqn:A; [|discriminate]. rewrite (adigit_isd c d A). eapply IH. exact H.
+Qed.
+
+Lemma pdf_zone_some f r x : pdf_zone f r = Some x ->
+  zone_len r <> None /\ match r with y :: _ => isd y = false | [] => True end.
+Proof.
+  destruct r as [|c [|c2 t2]]; [discriminate | |].
+  - cbn [pdf_zone]. destruct (c =? C_Z)%N eqn:E; [|discriminate]. intros _. apply N.eqb_eq in E. subst c.
+    split; [discriminate | reflexivity].
+  - unfold pdf_zone, zone_len. destruct ((c =? C_PLUS)%N || (c =? C_DASH)%N) eqn:E; [|discriminate].
+    assert (CZ : (c =? C_Z)%N = false /\ isd c = false).
+    { apply orb_true_iff in E. destruct E as [E|E]; apply N.eqb_eq in E; subst c; split; reflexivity. }
+    destruct CZ as [-> ND]. unfold obind.
+    destruct (take_digits adigit 2 (c2 :: t2) 0) as [[oh t3]|] eqn:T1; [|discriminate]. rewrite (take_digits_a _ _ _ _ _ T1).
+    destruct (expect C_COLON t3) as [t4|]; [|discriminate].
+    destruct (take_digits adigit 2 t4 0) as [[om t5]|] eqn:T2; [|discriminate]. rewrite (take_digits_a _ _ _ _ _ T2).
+    destruct t5; [|discriminate]. intros _. split; [discriminate | exact ND].
+Qed.
+
+Lemma frac_digits_span : forall n t acc cnt v cnt' r, frac_digits n t acc cnt = (v, cnt', r) ->
+  match r with y :: _ => isd y = false | [] => True end ->
+  exists k, cnt' = (cnt + Z.of_nat k)%Z /\ Nat.min n (fst (span isd t)) = k /\ r = skipn k t.
+Proof.
+  induction n as [|n IH]; intros t acc cnt v cnt' r H ND.
+  - cbn in H. inversion H; subst. exists 0. repeat split. lia.
+  - destruct t as [|y t'].
+    + cbn in H. inversion H; subst. exists 0. repeat split. lia.
+    + cbn [frac_digits] in H. destruct (adigit y) as [d|] eqn:A.
+      * destruct (IH _ _ _ _ _ _ H ND) as (k & K1 & K2 & K3). exists (S k). cbn [span]. rewrite (adigit_isd y d A).
+        destruct (span isd t') as [m q]. cbn [fst] in *. repeat split; [lia | cbn [Nat.min]; rewrite K2; reflexivity | exact K3].
+      * inversion H; subst. cbn [span]. rewrite ND. exists 0. repeat split. lia.
+Qed.
+
+Lemma pdf_tail_some y mo d h mi sec s x : pdf_tail y mo d h mi sec s = Some x -> frac_zone_len s <> None.
+Proof.
+  unfold pdf_tail, obind. destruct (pdf_frac s) as [[us r]|] eqn:F; [|discriminate]. intros Z.
+  destruct (pdf_zone_some _ _ _ Z) as [ZL ND]. unfold pdf_frac in F. unfold frac_zone_len.
+  destruct s as [|c t]; [discriminate|]. destruct (c =? C_DOT)%N.
+  - destruct (frac_digits 6 t 0 0) as [[v cnt] r'] eqn:FD. destruct (cnt =? 0)%Z eqn:C0; [discriminate|].
+    inversion F; subst r'. destruct (frac_digits_span _ _ _ _ _ _ _ FD ND) as (k & K1 & K2 & K3).
+    rewrite K2. apply Z.eqb_neq in C0. destruct k as [|k]; [lia|]. cbn [Nat.leb]. rewrite <- K3.
+    destruct (zone_len r); [discriminate | congruence].
+  - inversion F; subst. exact ZL.
+Qed.
+
+Theorem datetime_form_matches s x : parse_datetime_form s = Some x -> datetime_rx_len s <> None.
+Proof.
+  rewrite pdf_split. unfold datetime_rx_len, obind.
+  destruct (take_digits adigit 4 s 0) as [[y s1]|] eqn:T1; [|discriminate]. rewrite (take_digits_a _ _ _ _ _ T1).
+  destruct (expect C_DASH s1) as [s2|]; [|discriminate].
+  destruct (take_digits adigit 2 s2 0) as [[mo s3]|] eqn:T2; [|discriminate]. rewrite (take_digits_a _ _ _ _ _ T2).
+  destruct (expect C_DASH s3) as [s4|]; [|discriminate].
+  destruct (take_digits adigit 2 s4 0) as [[d s5]|] eqn:T3; [|discriminate]. rewrite (take_digits_a _ _ _ _ _ T3).
+  destruct (expect C_T s5) as [s6|]; [|discriminate].
+  destruct (take_digits adigit 2 s6 0) as [[h s7]|] eqn:T4; [|discriminate]. rewrite (take_digits_a _ _ _ _ _ T4).
+  destruct (expect C_COLON s7) as [s8|]; [|discriminate].
+  destruct (take_digits adigit 2 s8 0) as [[mi s9]|] eqn:T5; [|discriminate]. rewrite (take_digits_a _ _ _ _ _ T5).
+  destruct (expect C_COLON s9) as [s10|]; [|discriminate].
+  destruct (take_digits adigit 2 s10 0) as [[sec s11]|] eqn:T6; [|discriminate]. rewrite (take_digits_a _ _ _ _ _ T6).
+  intros H. apply pdf_tail_some in H. destruct (frac_zone_len s11); [discriminate | congruence].
+Qed.
+
+(* ---- the statement-by-statement regex version of value_parse_datetime IS the direct function, for EVERY string:
+        never out of fuel, never an uncaught exception, same value *)
+Theorem iso_parse_rx_is_iso_parse (off_utc : Z -> Z) s : iso_parse_rx off_utc s = DOk (iso_parse off_utc s).
+Proof.
+  destruct (re_match UC R_DATE s) as [|e c|] eqn:RD.
+  - destruct (iso_parse_rx_other_branch off_utc s RD) as [PD ->]. unfold iso_parse. rewrite PD.
+    rewrite datetime_regex_answer. destruct (datetime_rx_len s) as [e|] eqn:DL.
+    + rewrite zulu_sub_answer, zulu_parse_datetime_form. destruct (parse_datetime_form s) as [[f o]|]; reflexivity.
+    + destruct (parse_datetime_form s) as [x|] eqn:P; [|reflexivity].
+      exfalso. exact (datetime_form_matches s x P DL).
+  - apply iso_parse_rx_date_branch. rewrite RD. discriminate.
+  - exfalso. rewrite date_regex_answer in RD. destruct (date_rx_shape s); discriminate.
+Qed.
